@@ -6,6 +6,11 @@
 //! Element types whose equal-comparing values are distinguishable — a record ordered by key, `f64` / `f32` — and `Sum` over a
 //! non-commutative `+` are in `keyed.rs` (`min:rec`, `max:f64`, `sum:cat`, ...).
 //!
+//! Wave 4: `ap` / `apap` (a lazy item whose `push` treats its children differently, alone and as both components of a
+//! `Combinator`; elements are placed by index), element tokens `_` (`Default::default()` as an element) and `v#len[@md]` (a
+//! `SumAdd` element of length 0 / 2 / 3), `* v1 .. vk` (constructor values as a cycle: trees of 2^20 + 1 / 2^21 elements), and the
+//! ` dbg!` marker (`debug()` must be the `{:?}` of the `n` single-element asks).
+//!
 //! History ops beyond the API's own: `dfl` (`Default::default()`), `cp` / `x` / `y` (a value the API returned is fed back into
 //! `set` of the same tree / of a second live tree / into a constructor), a `b` prefix (the op addresses the second live tree,
 //! which is one element longer); every returned item is additionally put through `clone` / `clone_from` (fresh and used
@@ -74,6 +79,18 @@ trait HItem: SegtreeItem<Self::M> + Clone + Default + Debug + 'static {
     fn gen_val(rng: &mut SplitMix64, st: &Style) -> String;
     fn gen_mod(rng: &mut SplitMix64, st: &Style) -> String;
     fn mod_identity(m: &Self::M) -> bool;
+    /// the element as it is stored at index `i` (only the positional item `ap` uses it: an element's position is its index)
+    fn place(self, _i: usize) -> Self {
+        self
+    }
+    /// positional items keep "the i-th element has position i": no `new`, no second (longer) tree, no copied aggregates
+    const POSITIONAL: bool = false;
+    /// `Default::default()` may be stored as an element (`_`): an empty slot that no modifier can overflow
+    const DEFAULT_ELEM: bool = false;
+    /// modifier for a range that starts at `l` (positional modifiers are usually anchored at the start of their range)
+    fn gen_mod_at(rng: &mut SplitMix64, st: &Style, _l: usize) -> String {
+        Self::gen_mod(rng, st)
+    }
     /// `elems[k]` = k-th element in search direction, `aggs[k]` = aggregate after k+1 elements
     fn gen_pred(rng: &mut SplitMix64, aggs: &[Self::O], elems: &[Self::O], rev: bool) -> String;
 }
@@ -108,11 +125,45 @@ fn pick_const(rng: &mut SplitMix64) -> Option<String> {
     }
 }
 
+/// an element token: `_` is `Default::default()` (an empty slot: `SumAdd { len: 0 }`, the empty string, ...), anything else
+/// the item's own value syntax
+fn parse_elem<T: HItem>(tok: &str) -> Option<T> {
+    if tok == "_" {
+        Some(T::default())
+    } else {
+        T::parse_val(tok)
+    }
+}
+
+/// `v`, `v@md`, `v#len`, `v#len@md`: the fields of a `SumAdd` element (`len` defaults to 1)
+fn sumadd_fields(tok: &str) -> Option<(i64, Option<i64>, Option<i64>)> {
+    let (vl, md) = match tok.split_once('@') {
+        None => (tok, None),
+        Some((vl, m)) => (vl, Some(m.parse::<i64>().ok()?)),
+    };
+    let (v, len) = match vl.split_once('#') {
+        None => (vl, None),
+        Some((v, k)) => (v, Some(k.parse::<u32>().ok()? as i64)),
+    };
+    Some((v.parse::<i64>().ok()?, len, md))
+}
+
 /// `v` / `v@md` for the integer items; plain values go through the item's own `From<i64>`
 fn int_val<T>(tok: &str, plain: fn(i64) -> T, lazy: Option<fn(i64, i64) -> T>) -> Option<T> {
     match tok.split_once('@') {
         None => Some(plain(tok.parse::<i64>().ok()?)),
         Some((v, m)) => Some(lazy?(v.parse::<i64>().ok()?, m.parse::<i64>().ok()?)),
+    }
+}
+
+/// `SumAdd` elements: one in eight has a length other than 1 (`#0`: an empty slot, `#2` / `#3`: a weighted element)
+fn gen_sumadd_val(rng: &mut SplitMix64, st: &Style) -> String {
+    let v = rng.range_i64(st.vlo, st.vhi);
+    let len = if rng.chance(1, 8) { format!("#{}", [0, 0, 2, 3][rng.below(4) as usize]) } else { String::new() };
+    if rng.chance(1, 6) {
+        format!("{}{}@{}", v, len, rng.range_i64(st.mlo, st.mhi))
+    } else {
+        format!("{}{}", v, len)
     }
 }
 
@@ -190,6 +241,7 @@ fn gen_gt(rng: &mut SplitMix64, aggs: &[i64]) -> String {
 
 impl HItem for Min<i64> {
     unit_mod!();
+    const DEFAULT_ELEM: bool = true;
     type O = i64;
     fn parse_val(tok: &str) -> Option<Self> {
         int_val(tok, Min::from, None)
@@ -222,6 +274,7 @@ impl HItem for Min<i64> {
 
 impl HItem for Max<i64> {
     unit_mod!();
+    const DEFAULT_ELEM: bool = true;
     type O = i64;
     fn parse_val(tok: &str) -> Option<Self> {
         int_val(tok, Max::from, None)
@@ -254,6 +307,7 @@ impl HItem for Max<i64> {
 
 impl HItem for Sum<i64> {
     unit_mod!();
+    const DEFAULT_ELEM: bool = true;
     type O = i64;
     fn parse_val(tok: &str) -> Option<Self> {
         int_val(tok, Sum::from, None)
@@ -358,8 +412,13 @@ impl HItem for SumAdd<i64> {
     int_mod!();
     /// (sum, number of elements)
     type O = (i64, i64);
+    const DEFAULT_ELEM: bool = true;
     fn parse_val(tok: &str) -> Option<Self> {
-        int_val(tok, SumAdd::from, Some(|v, md| SumAdd { v, len: 1, md }))
+        // plain values through the item's own `From<i64>`; `v#len` / `v@md` through struct literals (public fields)
+        Some(match sumadd_fields(tok)? {
+            (v, None, None) => SumAdd::from(v),
+            (v, len, md) => SumAdd { v, len: len.unwrap_or(1), md: md.unwrap_or(0) },
+        })
     }
     fn obs(&self) -> (i64, i64) {
         (self.v, self.len)
@@ -386,7 +445,7 @@ impl HItem for SumAdd<i64> {
         pred_const(toks)
     }
     fn gen_val(rng: &mut SplitMix64, st: &Style) -> String {
-        gen_int_val(rng, st, true)
+        gen_sumadd_val(rng, st)
     }
     fn gen_pred(rng: &mut SplitMix64, aggs: &[(i64, i64)], _e: &[(i64, i64)], _rev: bool) -> String {
         pick_const(rng).unwrap_or_else(|| {
@@ -454,11 +513,13 @@ impl HItem for SMM {
     /// (sum, number of elements, min, max)
     type O = (i64, i64, i64, i64);
     fn parse_val(tok: &str) -> Option<Self> {
-        int_val(
-            tok,
-            SMM::from,
-            Some(|v, md| Combinator(Combinator(SumAdd { v, len: 1, md }, MinAdd { v, md }), MaxAdd { v, md })),
-        )
+        Some(match sumadd_fields(tok)? {
+            (v, None, None) => SMM::from(v),
+            (v, len, md) => {
+                let md = md.unwrap_or(0);
+                Combinator(Combinator(SumAdd { v, len: len.unwrap_or(1), md }, MinAdd { v, md }), MaxAdd { v, md })
+            }
+        })
     }
     fn obs(&self) -> Self::O {
         (self.0 .0.v, self.0 .0.len, self.0 .1.v, self.1.v)
@@ -491,7 +552,7 @@ impl HItem for SMM {
         pred_const(toks)
     }
     fn gen_val(rng: &mut SplitMix64, st: &Style) -> String {
-        gen_int_val(rng, st, true)
+        gen_sumadd_val(rng, st)
     }
     fn gen_pred(rng: &mut SplitMix64, aggs: &[Self::O], _e: &[Self::O], _rev: bool) -> String {
         pick_const(rng).unwrap_or_else(|| {
@@ -614,6 +675,7 @@ fn gen_aff_word(rng: &mut SplitMix64, hs: &[i64], rev: bool) -> String {
 
 impl HItem for AffHash {
     type M = (i64, i64);
+    const DEFAULT_ELEM: bool = true;
     type O = AffO;
     fn parse_val(tok: &str) -> Option<Self> {
         let (x, md) = parse_aff_val(tok)?;
@@ -664,6 +726,7 @@ impl HItem for AffHash {
 
 impl HItem for AA {
     type M = (i64, i64);
+    const DEFAULT_ELEM: bool = true;
     type O = (AffO, AffO);
     fn parse_val(tok: &str) -> Option<Self> {
         let (x, md) = parse_aff_val(tok)?;
@@ -766,6 +829,7 @@ macro_rules! flip_hitem {
     ($name:ident, $m:ty, $parse_mod:expr, $gen_mod:expr, $is_flip:expr) => {
         impl HItem for $name {
             type M = $m;
+            const DEFAULT_ELEM: bool = true;
             /// (ones, number of elements)
             type O = (i64, i64);
             fn parse_val(tok: &str) -> Option<Self> {
@@ -826,6 +890,7 @@ flip_hitem!(
 
 impl HItem for StrCat {
     type M = (u64, u64);
+    const DEFAULT_ELEM: bool = true;
     type O = String;
     fn parse_val(tok: &str) -> Option<Self> {
         let (w, md) = match tok.split_once('@') {
@@ -899,6 +964,206 @@ impl HItem for StrCat {
     }
 }
 
+// ---- add-an-arithmetic-progression (`Ap`, items.rs): a lazy item whose `push` treats its children differently ----
+
+/// (sum, number of elements, sum of positions, first position)
+type ApO = (i64, i64, i64, Option<i64>);
+type ApAp = Combinator<Ap, Ap>;
+
+fn ap_o_op(a: &ApO, b: &ApO) -> ApO {
+    (a.0 + b.0, a.1 + b.1, a.2 + b.2, if a.3.is_some() { a.3 } else { b.3 })
+}
+/// written out again per element: the element at position `q` receives `a + d * (q - from)`; an aggregate of `k` elements
+/// with position sum `ps` therefore `a * k + d * (ps - from * k)`
+fn ap_o_act(m: &(i64, i64, i64), x: &ApO) -> ApO {
+    let (from, a, d) = *m;
+    (x.0 + a * x.1 + d * (x.2 - from * x.1), x.1, x.2, x.3)
+}
+fn ap_o_view(o: &ApO) -> String {
+    format!("({},{},{},{})", o.0, o.1, o.2, o.3.map_or("-".to_string(), |q| q.to_string()))
+}
+/// `v` or `v@ta:td`; the position is assigned by `place`
+fn parse_ap_val(tok: &str) -> Option<Ap> {
+    match tok.split_once('@') {
+        None => Some(Ap::leaf(0, tok.parse().ok()?)),
+        Some((v, m)) => {
+            let (a, d) = m.split_once(':')?;
+            Some(Ap { sum: v.parse().ok()?, len: 1, ps: 0, lo: Some(0), ta: a.parse().ok()?, td: d.parse().ok()? })
+        }
+    }
+}
+fn place_ap(mut x: Ap, i: usize) -> Ap {
+    if x.lo.is_some() {
+        x.lo = Some(i as i64);
+        x.ps = i as i64 * x.len;
+    }
+    x
+}
+fn parse_ap_mod(toks: &[&str]) -> Option<(i64, i64, i64)> {
+    if toks.len() == 3 {
+        Some((toks[0].parse().ok()?, toks[1].parse().ok()?, toks[2].parse().ok()?))
+    } else {
+        None
+    }
+}
+fn gen_ap_val(rng: &mut SplitMix64, st: &Style) -> String {
+    let v = rng.range_i64(st.vlo, st.vhi);
+    if rng.chance(1, 6) {
+        format!("{}@{}:{}", v, rng.range_i64(st.mlo, st.mhi), rng.range_i64(-3, 3))
+    } else {
+        v.to_string()
+    }
+}
+/// progressions anchored at the start of their range (the usual use), at 0, or anywhere; constant adds (`d = 0`) too
+fn gen_ap_mod(rng: &mut SplitMix64, st: &Style, l: usize) -> String {
+    let from = match rng.below(6) {
+        0 => 0,
+        1 => rng.range_i64(-3, 40),
+        _ => l as i64,
+    };
+    let a = rng.range_i64(st.mlo, st.mhi);
+    let d = match rng.below(6) {
+        0 => 0,
+        1 | 2 => 1,
+        _ => {
+            if st.mlo < 0 {
+                rng.range_i64(-3, 3)
+            } else {
+                rng.range_i64(0, 3)
+            }
+        }
+    };
+    format!("{} {} {}", from, a, d)
+}
+
+impl HItem for Ap {
+    type M = (i64, i64, i64);
+    type O = ApO;
+    const POSITIONAL: bool = true;
+    fn parse_val(tok: &str) -> Option<Self> {
+        parse_ap_val(tok)
+    }
+    fn parse_mod(toks: &[&str]) -> Option<Self::M> {
+        parse_ap_mod(toks)
+    }
+    fn place(self, i: usize) -> Self {
+        place_ap(self, i)
+    }
+    fn obs(&self) -> ApO {
+        (self.sum, self.len, self.ps, self.lo)
+    }
+    fn o_dflt() -> ApO {
+        (0, 0, 0, None)
+    }
+    fn o_op(a: &ApO, b: &ApO) -> ApO {
+        ap_o_op(a, b)
+    }
+    fn o_act(m: &Self::M, a: &ApO) -> ApO {
+        ap_o_act(m, a)
+    }
+    fn o_view(o: &ApO) -> String {
+        ap_o_view(o)
+    }
+    fn parse_pred(toks: &[&str]) -> Option<Pred<ApO>> {
+        if let Some(c) = int_tok(toks, "ge") {
+            return Some(Box::new(move |x: &ApO| x.0 >= c));
+        }
+        if let Some(c) = int_tok(toks, "len") {
+            return Some(Box::new(move |x: &ApO| x.1 >= c));
+        }
+        pred_const(toks)
+    }
+    fn gen_val(rng: &mut SplitMix64, st: &Style) -> String {
+        gen_ap_val(rng, st)
+    }
+    fn gen_mod(rng: &mut SplitMix64, st: &Style) -> String {
+        gen_ap_mod(rng, st, 0)
+    }
+    fn gen_mod_at(rng: &mut SplitMix64, st: &Style, l: usize) -> String {
+        gen_ap_mod(rng, st, l)
+    }
+    fn mod_identity(m: &Self::M) -> bool {
+        m.1 == 0 && m.2 == 0
+    }
+    fn gen_pred(rng: &mut SplitMix64, aggs: &[ApO], _e: &[ApO], _rev: bool) -> String {
+        pick_const(rng).unwrap_or_else(|| {
+            if rng.chance(1, 4) {
+                format!("len {}", rng.range_i64(1, aggs.len() as i64 + 1))
+            } else {
+                let x = rng.pick(aggs).0;
+                format!("ge {}", around(rng, x))
+            }
+        })
+    }
+}
+
+impl HItem for ApAp {
+    type M = (i64, i64, i64);
+    type O = (ApO, ApO);
+    const POSITIONAL: bool = true;
+    fn parse_val(tok: &str) -> Option<Self> {
+        let x = parse_ap_val(tok)?;
+        let mut y = x.clone();
+        y.sum = 2 * x.sum + 1;
+        Some(Combinator(x, y))
+    }
+    fn parse_mod(toks: &[&str]) -> Option<Self::M> {
+        parse_ap_mod(toks)
+    }
+    fn place(self, i: usize) -> Self {
+        Combinator(place_ap(self.0, i), place_ap(self.1, i))
+    }
+    fn obs(&self) -> Self::O {
+        ((self.0.sum, self.0.len, self.0.ps, self.0.lo), (self.1.sum, self.1.len, self.1.ps, self.1.lo))
+    }
+    fn o_dflt() -> Self::O {
+        ((0, 0, 0, None), (0, 0, 0, None))
+    }
+    fn o_op(a: &Self::O, b: &Self::O) -> Self::O {
+        (ap_o_op(&a.0, &b.0), ap_o_op(&a.1, &b.1))
+    }
+    fn o_act(m: &Self::M, a: &Self::O) -> Self::O {
+        (ap_o_act(m, &a.0), ap_o_act(m, &a.1))
+    }
+    fn o_view(o: &Self::O) -> String {
+        format!("({},{})", ap_o_view(&o.0), ap_o_view(&o.1))
+    }
+    fn parse_pred(toks: &[&str]) -> Option<Pred<Self::O>> {
+        if let Some(c) = int_tok(toks, "ge0") {
+            return Some(Box::new(move |x: &Self::O| x.0 .0 >= c));
+        }
+        if let Some(c) = int_tok(toks, "ge1") {
+            return Some(Box::new(move |x: &Self::O| x.1 .0 >= c));
+        }
+        if let Some(c) = int_tok(toks, "len") {
+            return Some(Box::new(move |x: &Self::O| x.0 .1 >= c));
+        }
+        pred_const(toks)
+    }
+    fn gen_val(rng: &mut SplitMix64, st: &Style) -> String {
+        gen_ap_val(rng, st)
+    }
+    fn gen_mod(rng: &mut SplitMix64, st: &Style) -> String {
+        gen_ap_mod(rng, st, 0)
+    }
+    fn gen_mod_at(rng: &mut SplitMix64, st: &Style, l: usize) -> String {
+        gen_ap_mod(rng, st, l)
+    }
+    fn mod_identity(m: &Self::M) -> bool {
+        m.1 == 0 && m.2 == 0
+    }
+    fn gen_pred(rng: &mut SplitMix64, aggs: &[Self::O], _e: &[Self::O], _rev: bool) -> String {
+        pick_const(rng).unwrap_or_else(|| {
+            let a = *rng.pick(aggs);
+            match rng.below(5) {
+                0 => format!("len {}", rng.range_i64(1, aggs.len() as i64 + 1)),
+                1 | 2 => format!("ge0 {}", around(rng, a.0 .0)),
+                _ => format!("ge1 {}", around(rng, a.1 .0)),
+            }
+        })
+    }
+}
+
 /// predicates on concatenated words (shared by `str` and `sum:cat`)
 pub fn str_pred(toks: &[&str]) -> Option<Pred<String>> {
     let word_ok = |t: &str| !t.is_empty() && t.bytes().all(|c| c.is_ascii_lowercase());
@@ -924,7 +1189,7 @@ pub fn gen_str_pred(rng: &mut SplitMix64, aggs: &[String], elems: &[String], rev
         }
         let j = rng.below(elems.len() as u64 + 1) as usize;
         let mut parts: Vec<String> = elems[..j].to_vec();
-        if j < elems.len() && rng.chance(7, 8) {
+        if j < elems.len() && !elems[j].is_empty() && rng.chance(7, 8) {
             // same element with one letter changed (first letter in search direction)
             let mut b = elems[j].clone().into_bytes();
             let k = if rev { b.len() - 1 } else { 0 };
@@ -1052,8 +1317,8 @@ fn step_op<T: HItem>(side: &mut Side<T>, toks: &[&str]) -> Option<(String, Strin
     let n = *n;
     Some(match toks {
         ["set", i, v] => {
-            let (i, v) = match (i.parse::<usize>(), T::parse_val(v)) {
-                (Ok(i), Some(v)) => (i, v),
+            let (i, v) = match (i.parse::<usize>(), parse_elem::<T>(v)) {
+                (Ok(i), Some(v)) => (i, v.place(i)),
                 _ => return None,
             };
             let o = v.obs();
@@ -1147,8 +1412,14 @@ fn step_op<T: HItem>(side: &mut Side<T>, toks: &[&str]) -> Option<(String, Strin
             Ok(s) => {
                 // the observable values, by a second route
                 let items = catch(|| (0..n).map(|i| tree.ask(i, i)).collect::<Vec<T>>());
+                // `debug()` is the `{:?}` of the whole logical array: of exactly the `n` single-element asks, in order
+                // (independent oracle: the rendering is rebuilt here from the items `ask(i, i)` returns)
                 let view = match &items {
-                    Ok(v) => format!("[{}]", v.iter().map(|x| T::o_view(&x.obs())).collect::<Vec<_>>().join(",")),
+                    Ok(v) => format!(
+                        "[{}]{}",
+                        v.iter().map(|x| T::o_view(&x.obs())).collect::<Vec<_>>().join(","),
+                        if format!("{:?}", v) == s { "" } else { " dbg!" }
+                    ),
                     Err(e) => e.clone(),
                 };
                 let raw = if T::CUSTOM_RAW {
@@ -1254,11 +1525,17 @@ fn rebuild<T: HItem>(sides: &mut [Side<T>], src: usize, c: &str) -> Option<(Stri
 }
 
 fn run_history<T: HItem>(ctor: &str, n: usize, vals: &[&str], ops: &[&str]) -> String {
-    let vals: Option<Vec<T>> = vals.iter().map(|t| T::parse_val(t)).collect();
+    // `* v1 .. vk` in place of the `n` constructor values: `v1 .. vk` repeated cyclically (large trees)
+    let cyc = vals.first() == Some(&"*");
+    let toks = if cyc { &vals[1..] } else { vals };
+    let vals: Option<Vec<T>> = toks.iter().map(|t| parse_elem::<T>(t)).collect();
     let vals = match vals {
+        Some(v) if cyc && ctor != "new" && !v.is_empty() => (0..n).map(|i| v[i % v.len()].clone()).collect(),
         Some(v) => v,
         None => return INVALID.into(),
     };
+    // every element is stored at its index (`new`: one value for all positions)
+    let vals: Vec<T> = vals.into_iter().enumerate().map(|(i, v)| v.place(i)).collect();
     let (built, shadow) = match build_tree::<T>(ctor, n, &vals) {
         Some(b) => b,
         None => return INVALID.into(),
@@ -1277,7 +1554,7 @@ fn run_history<T: HItem>(ctor: &str, n: usize, vals: &[&str], ops: &[&str]) -> S
     if two {
         let mut vals2 = vals.clone();
         if ctor != "new" {
-            vals2.push(vals[0].clone());
+            vals2.push(vals[0].clone().place(n));
         }
         match build_tree::<T>(ctor, n + 1, &vals2) {
             Some((Ok(tree), shadow)) => sides.push(Side { n: n + 1, tree, shadow, last: None }),
@@ -1334,6 +1611,8 @@ macro_rules! dispatch {
             "str" => Some($f::<StrCat>($($arg),*)),
             "flipz" => Some($f::<FlipZ>($($arg),*)),
             "flipb" => Some($f::<FlipB>($($arg),*)),
+            "ap" => Some($f::<Ap>($($arg),*)),
+            "apap" => Some($f::<ApAp>($($arg),*)),
             _ => None,
         }
     };
@@ -1417,7 +1696,7 @@ fn run_case(line: &str) -> String {
         return INVALID.into();
     }
     let n = match hdr[2].parse::<usize>() {
-        Ok(n) if n <= 100_000 => n,
+        Ok(n) if n <= 4_200_000 => n,
         _ => return INVALID.into(),
     };
     match hdr[0].split_once(':') {
@@ -1564,39 +1843,71 @@ fn weights(focus: &str, n: usize) -> [u64; 8] {
     }
 }
 
-const SIZES_HUGE: [usize; 8] = [255, 256, 257, 511, 513, 1000, 1024, 1025];
+/// 771 = 3 * 257, 1100: `debug()` is observed on every one of these (a rendering assembled from blocks of 256 / 512 / 1024
+/// elements has block boundaries inside)
+const SIZES_HUGE: [usize; 10] = [255, 256, 257, 511, 513, 771, 1000, 1024, 1025, 1100];
+/// trees of 21 levels and more: `2^20 + 1` (only the leftmost path is 21 inner nodes deep) and `2^21`
+const SIZES_DEEP: [usize; 2] = [(1 << 20) + 1, 1 << 21];
 
-/// `size`: 0 = n in 1..17, 1 = boundary sizes 31..129, 2 = a few hundred to a thousand elements (short histories)
+/// an element token for a constructor / `set`: the item's own values, one in ten `_` (= `Default::default()`, an empty slot)
+/// where the item admits that
+fn gen_elem<T: HItem>(rng: &mut SplitMix64, st: &Style) -> String {
+    if T::DEFAULT_ELEM && rng.chance(1, 10) {
+        "_".into()
+    } else {
+        T::gen_val(rng, st)
+    }
+}
+
+/// `size`: 0 = n in 1..17, 1 = boundary sizes 31..129, 2 = a few hundred to a thousand elements (short histories, closed by
+/// `dbg`), 3 = 2^20 + 1 / 2^21 elements (constructor values given as a short cycle, a handful of operations that walk the
+/// deepest paths; 4 = the same on 2^21)
 fn gen_history<T: HItem>(name: &str, rng: &mut SplitMix64, focus: &str, st: &mut Stats, size: u8) -> String {
     let big = size >= 1;
     let n = match size {
         0 => 1 + rng.below(17) as usize,
         1 => *rng.pick(&SIZES_BIG),
-        _ => *rng.pick(&SIZES_HUGE),
+        2 => *rng.pick(&SIZES_HUGE),
+        _ => SIZES_DEEP[(size as usize - 3) % 2],
     };
-    let style = match rng.below(5) {
+    // (two million elements of magnitude 10^12 would leave i64: moderate magnitudes on the deep trees)
+    let style = match if size >= 3 { [0, 1, 3, 4][rng.below(4) as usize] } else { rng.below(5) } {
         0 => Style { vlo: 0, vhi: 50, mlo: 0, mhi: 20 }, // non-negative: sum thresholds monotone
         1 => Style { vlo: -5, vhi: 5, mlo: -3, mhi: 3 }, // many ties
         2 => Style { vlo: -1_000_000_000_000, vhi: 1_000_000_000_000, mlo: -1_000_000_000, mhi: 1_000_000_000 },
         3 => Style { vlo: 0, vhi: 3, mlo: 0, mhi: 2 },
         _ => Style { vlo: -100, vhi: 100, mlo: -50, mhi: 50 },
     };
-    let ctor = *rng.pick(&["new", "slice", "iter", "new", "slice", "iter", "iterp", "iterr"]);
+    // positional items: the i-th element has position i, which one value for all positions (`new`) cannot give
+    let ctor = if T::POSITIONAL {
+        *rng.pick(&["slice", "iter", "slice", "iter", "iterp", "iterr"])
+    } else {
+        *rng.pick(&["new", "slice", "iter", "new", "slice", "iter", "iterp", "iterr"])
+    };
     st.bump(&format!("ctor_{}", ctor));
     st.bump(&format!("item_{}", name));
-    st.bump(["n_1_to_17", "n_31_to_129", "n_255_to_1025"][size.min(2) as usize]);
-    let vals: Vec<String> =
-        if ctor == "new" { vec![T::gen_val(rng, &style)] } else { (0..n).map(|_| T::gen_val(rng, &style)).collect() };
+    st.bump(["n_1_to_17", "n_31_to_129", "n_255_to_1100", "n_2^20+1_or_2^21"][size.min(3) as usize]);
+    // the large trees get their constructor values as a short cycle (`* v1 .. vk`)
+    let cycle = if size >= 3 && ctor != "new" { 1 + rng.below(7) as usize } else { 0 };
+    let vals: Vec<String> = if ctor == "new" {
+        vec![gen_elem::<T>(rng, &style)]
+    } else {
+        (0..if cycle > 0 { cycle } else { n }).map(|_| gen_elem::<T>(rng, &style)).collect()
+    };
     if vals.iter().any(|v| v.contains('@')) {
         st.bump("constructor_values_with_own_pending_modifier");
     }
+    if vals.iter().any(|v| v == "_" || v.contains("#0")) {
+        st.bump("constructor_values_with_empty_slot");
+    }
+    let obs_at = |v: &str, i: usize| -> T::O { parse_elem::<T>(v).unwrap().place(i).obs() };
     let shadow0: Vec<T::O> = if ctor == "new" {
-        vec![T::parse_val(&vals[0]).unwrap().obs(); n]
+        vec![obs_at(&vals[0], 0); n]
     } else {
-        vals.iter().map(|v| T::parse_val(v).unwrap().obs()).collect()
+        (0..n).map(|i| obs_at(&vals[i % vals.len()], i)).collect()
     };
     // one history in four runs two live trees of the type side by side (ops prefixed with `b` address the second)
-    let two = rng.chance(1, 4);
+    let two = size < 3 && rng.chance(1, 4);
     if two {
         st.bump("histories_with_two_live_trees");
     }
@@ -1609,20 +1920,39 @@ fn gen_history<T: HItem>(name: &str, rng: &mut SplitMix64, focus: &str, st: &mut
     let nops = match size {
         0 => 4 + rng.below(60),
         1 => 8 + rng.below(40),
-        _ => 4 + rng.below(8),
+        2 => 4 + rng.below(8),
+        _ => 5 + rng.below(3),
     } as usize;
     let w = weights(focus, n);
     let total: u64 = w.iter().sum();
     // values that were returned by the API and fed back may double a sum: at most three per history
     let mut transfers_left = 3;
     let mut rebuilt_new = false;
-    let mut line = format!("{} {} {} {}", name, ctor, n, vals.join(" "));
-    for _ in 0..nops {
+    let mut line = format!("{} {} {} {}{}", name, ctor, n, if cycle > 0 { "* " } else { "" }, vals.join(" "));
+    for opno in 0..nops {
         let mut x = rng.below(total);
         let mut k = 0;
         while x >= w[k] {
             x -= w[k];
             k += 1;
+        }
+        if size >= 3 {
+            // every public function on the deep trees: a fixed skeleton (modify, set, ask, both searches), the rest random;
+            // no `dbg` (two million elements), no transfers
+            k = match opno {
+                0 => 1,
+                1 => 0,
+                2 => 2,
+                3 => 3,
+                4 => 4,
+                _ => {
+                    if k >= 5 {
+                        2
+                    } else {
+                        k
+                    }
+                }
+            };
         }
         let sel = if two && rng.chance(1, 2) { 1 } else { 0 };
         let pre = if sel == 1 { "b " } else { "" };
@@ -1630,7 +1960,7 @@ fn gen_history<T: HItem>(name: &str, rng: &mut SplitMix64, focus: &str, st: &mut
             st.bump("ops_on_second_tree");
         }
         // on the large trees the quadratic specification of a search is the expensive part: fewer of them
-        if size >= 2 && (k == 3 || k == 4) && rng.chance(2, 3) {
+        if size == 2 && (k == 3 || k == 4) && rng.chance(2, 3) {
             k = 2;
         }
         if k == 6 && transfers_left == 0 {
@@ -1640,9 +1970,14 @@ fn gen_history<T: HItem>(name: &str, rng: &mut SplitMix64, focus: &str, st: &mut
         let n = ns[sel];
         match k {
             0 => {
-                let i = rng.below(n as u64) as usize;
-                let v = T::gen_val(rng, &style);
-                shadows[sel][i] = T::parse_val(&v).unwrap().obs();
+                let mut i = rng.below(n as u64) as usize;
+                if size >= 3 && (opno == 1 || rng.chance(3, 4)) {
+                    // the leftmost path is the deepest one (the left child gets the larger half): the first `set` of
+                    // every history on a deep tree walks it
+                    i = if opno == 1 { rng.below(2) as usize } else { *rng.pick(&[0, 0, 1, n - 1, n / 2]) };
+                }
+                let v = gen_elem::<T>(rng, &style);
+                shadows[sel][i] = parse_elem::<T>(&v).unwrap().place(i).obs();
                 tagss[sel].set(i, 0, 0, n - 1);
                 st.bump("op_set");
                 if tagss[sel].crossed > 0 {
@@ -1651,8 +1986,13 @@ fn gen_history<T: HItem>(name: &str, rng: &mut SplitMix64, focus: &str, st: &mut
                 line.push_str(&format!(" ; {}set {} {}", pre, i, v));
             }
             1 => {
-                let (l, r) = pick_range(rng, n);
-                let mt = T::gen_mod(rng, &style);
+                let (mut l, mut r) = pick_range(rng, n);
+                if size >= 3 && (opno == 0 || rng.chance(1, 2)) {
+                    // the first elements sit on the deepest path of n = 2^20 + 1: ranges that leave a pending tag right above
+                    // them, or end / start between them (the opening `mod` of every deep history is one of these)
+                    (l, r) = *rng.pick(&[(0, 1), (0, r), (1, r.max(1)), (0, n - 1), (1, n - 1), (1, 1)]);
+                }
+                let mt = T::gen_mod_at(rng, &style, l);
                 let toks: Vec<&str> = mt.split_whitespace().collect();
                 let m = T::parse_mod(&toks).unwrap();
                 for e in shadows[sel][l..=r].iter_mut() {
@@ -1666,7 +2006,13 @@ fn gen_history<T: HItem>(name: &str, rng: &mut SplitMix64, focus: &str, st: &mut
                 line.push_str(&format!(" ; {}mod {} {} {}", pre, l, r, mt));
             }
             2 => {
-                let (l, r) = pick_range(rng, n);
+                let (mut l, mut r) = pick_range(rng, n);
+                if size >= 3 && (opno == 2 || rng.chance(1, 2)) {
+                    // single elements at the ends of the deepest / shallowest paths (the first `ask` of every deep history
+                    // reads one of the two deepest leaves)
+                    l = if opno == 2 { rng.below(2) as usize } else { *rng.pick(&[0, 1, n - 1]) };
+                    r = l;
+                }
                 tagss[sel].range(l, r, None, 0, 0, n - 1);
                 st.bump("op_ask");
                 if tagss[sel].crossed > 0 {
@@ -1677,9 +2023,13 @@ fn gen_history<T: HItem>(name: &str, rng: &mut SplitMix64, focus: &str, st: &mut
             3 | 4 => {
                 let rev = k == 4;
                 let mut pos = rng.below(n as u64) as usize;
-                if size >= 2 && rng.chance(3, 4) {
+                if size >= 3 || (size >= 2 && rng.chance(3, 4)) {
                     // the plain-list specification of a search is quadratic in the distance to the end of the array
-                    let d = rng.below(48.min(n as u64)) as usize;
+                    let mut d = rng.below(if size >= 3 { 24 } else { 48.min(n as u64) }) as usize;
+                    if size >= 3 && rev && rng.chance(1, 2) {
+                        // the leftward search that ends on the deepest path of n = 2^20 + 1
+                        d = rng.below(2) as usize;
+                    }
                     pos = if rev { d } else { n - 1 - d };
                 }
                 let (aggs, elems) = dir_aggs::<T>(&shadows[sel], pos, rev);
@@ -1718,8 +2068,11 @@ fn gen_history<T: HItem>(name: &str, rng: &mut SplitMix64, focus: &str, st: &mut
                 if two && rng.chance(1, 4) {
                     // ... or into a constructor: the other tree is rebuilt from values read back from this one
                     // (`new(n, ask(0, n-1))` multiplies a sum by n: small trees only, once per history)
-                    let c =
-                        if n <= 17 && !rebuilt_new && rng.chance(1, 3) { "new" } else { *rng.pick(&["slice", "iter"]) };
+                    let c = if n <= 17 && !rebuilt_new && !T::POSITIONAL && rng.chance(1, 3) {
+                        "new"
+                    } else {
+                        *rng.pick(&["slice", "iter"])
+                    };
                     for i in 0..n {
                         tagss[sel].range(i, i, None, 0, 0, n - 1);
                     }
@@ -1739,10 +2092,16 @@ fn gen_history<T: HItem>(name: &str, rng: &mut SplitMix64, focus: &str, st: &mut
                     line.push_str(&format!(" ; {}y {}", pre, c));
                     continue;
                 }
-                let (l, r) = pick_range(rng, n);
+                let (mut l, mut r) = pick_range(rng, n);
                 let cross = two && rng.chance(2, 3);
                 let dst = if cross { 1 - sel } else { sel };
-                let i = rng.below(ns[dst] as u64) as usize;
+                let mut i = rng.below(ns[dst] as u64) as usize;
+                if T::POSITIONAL {
+                    // an element may only travel to its own index (its position is its index)
+                    i = rng.below(ns[sel].min(ns[dst]) as u64) as usize;
+                    l = i;
+                    r = i;
+                }
                 let mut acc = shadows[sel][l].clone();
                 for j in l + 1..=r {
                     acc = T::o_op(&acc, &shadows[sel][j]);
@@ -1759,6 +2118,12 @@ fn gen_history<T: HItem>(name: &str, rng: &mut SplitMix64, focus: &str, st: &mut
             }
         }
     }
+    // a few hundred to a thousand elements: the whole array is observed through `debug()` at the end
+    if size == 2 {
+        st.bump("op_dbg");
+        st.bump("dbg_on_more_than_254_elements");
+        line.push_str(" ; dbg");
+    }
     // close with a single-element ask ("observe_at": single-element asks after any history)
     if rng.chance(1, 2) {
         let i = rng.below(n as u64) as usize;
@@ -1769,8 +2134,12 @@ fn gen_history<T: HItem>(name: &str, rng: &mut SplitMix64, focus: &str, st: &mut
     line
 }
 
-const ITEMS: [&str; 13] =
-    ["min", "max", "sum", "minadd", "maxadd", "sumadd", "mm", "smm", "aff", "aa", "str", "flipz", "flipb"];
+const ITEMS: [&str; 15] =
+    ["min", "max", "sum", "minadd", "maxadd", "sumadd", "mm", "smm", "aff", "aa", "str", "flipz", "flipb", "ap", "apap"];
+
+/// items that are run on the trees of 2^20 + 1 / 2^21 elements
+const DEEP_ITEMS: [&str; 14] =
+    ["sumadd", "minadd", "maxadd", "mm", "smm", "aff", "aa", "str", "flipz", "flipb", "ap", "apap", "min:rec", "sum"];
 
 fn gen_one(item: &str, rng: &mut SplitMix64, focus: &str, st: &mut Stats, size: u8) -> String {
     match item.split_once(':') {
@@ -1813,6 +2182,9 @@ fn alphabet(item: &str, n: usize, searches: bool) -> Vec<String> {
     // flips inside the array, and (aff) the always-false one
     let (vals, mods, pf, pr): (&[&str], &[&str], &[&str], &[&str]) = if item == "aff" {
         (&["7"], &["2 1", "0 5"], &["T", "npre 1,7", "F"], &["T", "nsuf 7,2"])
+    } else if item == "ap" {
+        // a progression anchored at the start of its range (`$l`), one anchored elsewhere with a negative step
+        (&["5"], &["$l 1 1", "1 3 -1"], &["ge 4", "len 2"], &["ge 4", "len 2"])
     } else if item == "flipz" {
         // lazy item with the zero-sized modifier `()`
         (&["1"], &["u"], &["ge 2", "zeros 1"], &["ge 1", "zeros 2"])
@@ -1828,7 +2200,7 @@ fn alphabet(item: &str, n: usize, searches: bool) -> Vec<String> {
     for l in 0..n {
         for r in l..n {
             for m in mods {
-                ops.push(format!("mod {} {} {}", l, r, m));
+                ops.push(format!("mod {} {} {}", l, r, m.replace("$l", &l.to_string())));
             }
             ops.push(format!("ask {} {}", l, r));
         }
@@ -1852,10 +2224,11 @@ fn gen(args: &Args, emit: &mut dyn FnMut(String), st: &mut Stats) {
     let mut rng = SplitMix64::new(args.seed ^ if focus == "C02" { 0xC02 } else { 0xC01 });
     // (1) exhaustive small scope on the two non-commutative items with a two-element modifier alphabet
     //     (non-commuting modifiers): every interleaving of push / merge on tiny trees
-    for item in ["aff", "str", "flipz"] {
+    for item in ["aff", "str", "flipz", "ap"] {
         let init = |n: usize| -> String {
             let v: Vec<&str> = match item {
                 "aff" => vec!["1", "2", "3", "4"],
+                "ap" => vec!["1", "0", "2", "0"],
                 "str" => vec!["a", "b", "ab", "d"],
                 _ => vec!["1", "0", "0", "1"],
             };
@@ -1864,7 +2237,13 @@ fn gen(args: &Args, emit: &mut dyn FnMut(String), st: &mut Stats) {
         let searches = focus == "C02";
         for n in 1..=4usize {
             let full = alphabet(item, n, true);
-            let lens: &[usize] = if thorough { &[1, 2, 3] } else { &[1, 2] };
+            let lens: &[usize] = if thorough {
+                &[1, 2, 3]
+            } else if item == "ap" && n == 4 {
+                &[1]
+            } else {
+                &[1, 2]
+            };
             for &len in lens {
                 if len == 3 && n == 4 && !searches {
                     // the searches of the full alphabet matter for C02 only
@@ -1875,6 +2254,9 @@ fn gen(args: &Args, emit: &mut dyn FnMut(String), st: &mut Stats) {
             }
         }
         // longer histories over a reduced alphabet (with the searches when the focus is C02)
+        if item == "ap" && !thorough {
+            continue;
+        }
         let n3 = alphabet(item, 3, searches);
         let len3 = match (thorough, searches) {
             (true, false) => 4,
@@ -1963,7 +2345,7 @@ fn gen(args: &Args, emit: &mut dyn FnMut(String), st: &mut Stats) {
     };
     for c in 0..count {
         // the lazy and the non-commutative items get more weight
-        let item = match rng.below(33) {
+        let item = match rng.below(38) {
             0 => "min",
             1 => "max",
             2 => "sum",
@@ -1983,6 +2365,9 @@ fn gen(args: &Args, emit: &mut dyn FnMut(String), st: &mut Stats) {
             23 => "minadd:rec",
             24 => "maxadd:rec",
             25 => "mm:rec",
+            // the lazy item whose `push` treats its children differently, alone and as both components of a Combinator
+            26 | 27 | 28 => "ap",
+            29 | 30 => "apap",
             _ => *rng.pick(&KEYED_ITEMS),
         };
         let big = c % 8 == 7;
@@ -2002,6 +2387,17 @@ fn gen(args: &Args, emit: &mut dyn FnMut(String), st: &mut Stats) {
             emit(gen_one(item, &mut rng, &focus, st, 2));
             st.bump("random_histories");
         }
+    }
+    // (2e) trees of 21 levels and more (n = 2^20 + 1, 2^21): every public function, the deepest root-to-leaf paths
+    //      (default 2 in the quick tier - `--large-quick k` changes that -, 24 in thorough; `--large k` overrides both)
+    let large_quick: usize = args.extra.get("large-quick").and_then(|v| v.parse().ok()).unwrap_or(2);
+    let large: usize =
+        args.extra.get("large").and_then(|v| v.parse().ok()).unwrap_or(if thorough { 24 } else { large_quick });
+    for k in 0..large {
+        let item = if k == 0 { "sumadd" } else { *rng.pick(&DEEP_ITEMS) };
+        emit(gen_one(item, &mut rng, &focus, st, 3 + (k % 2) as u8));
+        st.bump("random_histories");
+        st.bump("histories_on_2^20+1_or_2^21_elements");
     }
     // (2b) the built-in items at unsigned / narrow element types, elements / modifiers / thresholds at the types' extreme
     //      values; every (item, type, mode) at least twice
@@ -2037,6 +2433,10 @@ fn gen(args: &Args, emit: &mut dyn FnMut(String), st: &mut Stats) {
         emit(l.to_string());
         st.bump("overflow_out_of_domain_lines");
     }
+    //      ... and one history on which the positional item `ap` is NOT positional (`new`: every element at position 0): the
+    //      Rust item's `push` (written with `left.len`) and the model's differ there, the driver's guard answers `S any`
+    emit("ap new 4 1 ; mod 0 3 0 1 1 ; ask 1 1".to_string());
+    st.bump("ap_not_positional_out_of_domain_lines");
     // (3) out-of-domain stream: operations outside 0 <= l <= r < n (view `ood`: only the raw panic is compared with the
     //     model, as drift), empty constructors
     for item in ["minadd", "aff", "sum", "flipz"] {
